@@ -37,7 +37,7 @@ KINDS = ["inbound_req_basic", "inbound_req_threading", "inbound_req_threading_no
          "refused_while_stopping", "late_and_unknown_answers", "conn_with_request_closed", "outbound_req_timeout",
          "conn_closed_mid_frame", "inbound_req_raise", "inbound_req_threading_raise",
          "second_conn_cycles", "request_then_garbage", "inbound_req_threading_conn_gone",
-         "inbound_req_dispatched_after_conn_gone"]
+         "inbound_req_dispatched_after_conn_gone", "socket_creation_fails"]
 PEER = "peer1.verif.example"
 
 
@@ -100,7 +100,7 @@ class Kind:
         from vf.simnet.world import World, REALM
         from vf.simnet import msgs as M
         self.M, self.REALM, self.kind, self.n = M, REALM, kind, n
-        out = kind in ("connect_refused", "connect_failed_async", "cea_rejected")
+        out = kind in ("connect_refused", "connect_failed_async", "cea_rejected", "socket_creation_fails")
         peers = [{"name": PEER, "persistent": out, "reconnect_wait": 1, "timers": {}}]
         app = {"tag": "a4", "id": 4, "peers": [PEER]}
         if kind == "inbound_req_threading_conn_gone":
@@ -149,8 +149,9 @@ class Kind:
     def run(self):
         M, h, w, n, kind = self.M, self.h, self.w, self.n, self.kind
         REALM = self.REALM
-        if kind in ("connect_refused", "connect_failed_async", "cea_rejected"):
-            outcome = {"connect_refused": "refused", "connect_failed_async": "inprogress-fail", "cea_rejected": "ok"}[kind]
+        if kind in ("connect_refused", "connect_failed_async", "cea_rejected", "socket_creation_fails"):
+            outcome = {"connect_refused": "refused", "connect_failed_async": "inprogress-fail", "cea_rejected": "ok",
+                       "socket_creation_fails": "refused"}[kind]
             h.script_connect("10.1.0.1", 3868, *([outcome] * (n + 5)))
         w.start()
         h.settle()
@@ -386,6 +387,18 @@ class Kind:
                 except Inconclusive:
                     # a node that keeps creating connections never comes to rest: the census still counts them
                     self.restless = getattr(self, "restless", 0) + 1
+        elif kind == "socket_creation_fails":
+            # every due reconnect first dies at socket creation (no descriptor left), the retry that follows is refused:
+            # one attempt that never became a connection and one that did, per cycle
+            from vf.simnet.harness import Inconclusive
+            for i in range(n):
+                h.socket_failures = 1
+                h.advance(1)
+                try:
+                    h.settle(max_ticks=30)
+                except Inconclusive:
+                    self.restless = getattr(self, "restless", 0) + 1
+            h.socket_failures = 0
         elif kind == "cea_rejected":
             for i in range(n):
                 outs = [p for p in h.outbound_peers if not p.closed and not p.node_sock.closed]
